@@ -121,6 +121,84 @@ def spec_apply(root, op, loc, arg=None):
 DT = {"d": 4, "f": 8, "l": 10, "p": 1}
 
 
+# ------------------------------------------------------------------ scripted getdents64 answers (readdirs)
+
+def reclen_of(name):
+    return (19 + len(name) + 1 + 7) // 8 * 8
+
+
+def parse_recs(s):
+    if s == "-":
+        return []
+    return [(int(x.split(":")[0][1:]), C.unhex(x.split(":")[1])) for x in s.split(",")]
+
+
+SPLIT_MODES = ("single", "kernel", "random", "threshold", "one-call-short")
+
+
+def gen_split(r, recs):
+    """(split token, mode, terminator): a partition of the kernel's records into answers that fit 512 bytes, each answer
+    non-empty, followed by a terminator: the answer 0, nothing (script ends), an errno, or 0 somewhere in the middle"""
+    lens = [reclen_of(n) for _, n in recs]
+    mode = r.choice(SPLIT_MODES)
+    items, i = [], 0
+    thr = r.choice([24, 48, 72, 232, 240, 248, 264, 272, 280, 488])
+    while i < len(lens):
+        # the most records that fit from i on
+        k, tot = 0, 0
+        while i + k < len(lens) and tot + lens[i + k] <= 512:
+            tot += lens[i + k]
+            k += 1
+        if mode == "single":
+            n = 1
+        elif mode == "kernel":
+            n = k
+        elif mode == "random":
+            n = r.range(1, k)
+        elif mode == "threshold":            # cut as soon as the answer holds `thr` bytes
+            n, tot = 0, 0
+            while n < k and tot < thr:
+                tot += lens[i + n]
+                n += 1
+        else:                                # kernel's split, but one record less whenever possible
+            n = max(1, k - 1)
+        items.append(n)
+        i += n
+    term = r.choice(["z", "z", "z", "none", "errno", "early", "junk"])
+    toks = [str(n) for n in items]
+    if term == "z":
+        toks.append("z")
+    elif term == "errno":
+        at = r.range(0, len(toks))
+        toks = toks[:at] + ["e%d" % r.choice([4, 4, 5, 9, 12])] + toks[at:]
+    elif term == "early":
+        at = r.range(0, len(toks))
+        toks = toks[:at] + ["z"] + toks[at:]
+    elif term == "junk":
+        toks += ["z", "1", "e5"]
+    return "g" + ",".join(toks), mode, term
+
+
+def split_spec(recs, split):
+    """what the property demands of the iterator for this script: (yields in order, how the iteration ends)"""
+    ys, pos = [], 0
+    body = split[1:]
+    for x in (body.split(",") if body else []):
+        if x == "z":
+            return ys, "done"
+        if x.startswith("e"):
+            return ys, "err:" + x[1:]
+        chunk = recs[pos:pos + int(x)]
+        pos += int(x)
+        tot = sum(reclen_of(n) for _, n in chunk)
+        if tot > 512:
+            return ys, "err:22"
+        if tot == 0:
+            return ys, "done"
+        ys += chunk
+    return ys, "done"
+
+
 # ------------------------------------------------------------------ generation
 
 class Gen:
@@ -337,7 +415,8 @@ class Gen:
                 p, sh = self.shape(loc, True)
                 if not p:
                     continue
-                line = ("readdir %s" % H(p), "readdir", loc, None, sh)
+                line = ("%s %s" % (r.choice(["readdir", "readdirs"]), H(p)), "readdir", loc, None, sh)
+                line = (line[0], line[0].split()[0]) + line[2:]
             if line is None:
                 continue
             out.append(line)
@@ -406,7 +485,14 @@ class Judge:
             return "unexpected harness output: " + tw[:80]
         res, dump_a, std, dump_b = parts
         std = std[4:] if std.startswith("std=") else std
-        if out.split(" | ")[0] != res and not res.startswith("order-drift"):
+        scripted = None
+        if op == "readdirs":
+            # twin run: the kernel answers (a plain readdir); this run: the harness answers from the script
+            scripted = out.split(" | ")[0]
+            if out.split(" | ")[1:] != [dump_a]:
+                return "readdirs changed the tree"
+            op = "readdir"
+        elif out.split(" | ")[0] != res and not res.startswith("order-drift"):
             return "implementation not deterministic between the two runs: %s / %s" % (res[:40], out[:40])
         pre = self.pre
         post = parse_dump(dump_a)
@@ -414,6 +500,8 @@ class Judge:
         if self.poisoned:
             return None
         why = self.judge_op(op, meta, res, std, pre, post, dump_a, dump_b)
+        if scripted is not None and not why:
+            why = self.judge_split(w, scripted, pre, list(meta[2]))
         if dump_b != "same" and not why:
             # only reachable after a failure on both sides with different partial effects: stop comparing with the twin
             self.diverged = True
@@ -481,6 +569,46 @@ class Judge:
         # failure: nothing the property forbids by itself; it must be a failure of std::fs as well
         if rc == "err" and sc == "ok" and not self.diverged:
             return "%s: Err(%s) where std::fs succeeds" % (op, res.split()[1] if len(res.split()) > 1 else "?")
+        return None
+
+    def judge_split(self, w, res, pre, loc):
+        """iteration over scripted getdents64 answers: every record of the answers received, exactly once, in order, with its
+        exact type and name; then the end the script dictates (None / that error once); then None for every further call"""
+        if len(w) != 4:
+            return None
+        if res.startswith("panic"):
+            return "readdirs: panicked"
+        if res.startswith("order-drift"):
+            self.ctx.hist("readdirs_order_drift", "1")
+            return None
+        n = lookup(pre, loc)
+        if n is None or n[0] != "d":
+            return None if not res.startswith("ok") else "readdirs: iterated something that is not a directory"
+        recs = parse_recs(w[2])
+        want = sorted([(4, b"."), (4, b"..")] + [(DT[v[0]], nm) for nm, v in n[1].items()])
+        if sorted(recs) != want:
+            return None            # the recorded kernel order does not describe this directory: no evidence
+        exp, end = split_spec(recs, w[3])
+        if not res.startswith("ok "):
+            return "readdirs: %s where the script ends with %s after %d entries" % (res[:20], end, len(exp))
+        f = dict(x.split("=", 1) for x in res.split()[1:])
+        ys = parse_recs(f.get("yields", "-"))
+        if ys != exp:
+            names, enames = [y[1] for y in ys], [y[1] for y in exp]
+            if len(set(names)) != len(names):
+                return "readdirs: an entry was yielded twice"
+            if names == enames:
+                return "readdirs: wrong type for an entry"
+            if sorted(names) == sorted(enames):
+                return "readdirs: entries yielded out of order"
+            return "readdirs: entries missing or invented (%d yielded, %d received from getdents64)" % (len(ys), len(exp))
+        if f.get("end") != end:
+            return "readdirs: iteration ended with %s, the script ends with %s" % (f.get("end"), end)
+        if f.get("more") != "d,d,d":
+            return "readdirs: an item after the end of the iteration (%s)" % f.get("more")
+        rel = f.get("rel", "")
+        if any((c == "1") != (y[1] in (b".", b"..")) for c, y in zip(rel, ys)):
+            return "readdirs: is_relative_reference wrong"
         return None
 
     @staticmethod
@@ -618,11 +746,38 @@ def directed_lines(g):
         p = b"existing" + b"/" * (n - 8 - 2) + b"q%d" % (n % 10)
         if len(p) == n:
             add("mkdirall %s" % H(p), "mkdirall", [b"existing", b"q%d" % (n % 10)])
+    # trailing separators (one / several), on fresh, existing, nested paths, on a regular file, on the sandbox root
+    add("mkdirall %s" % H(b"t1/"), "mkdirall", [b"t1"])
+    add("mkdirall %s" % H(b"t2///"), "mkdirall", [b"t2"])
+    add("mkdirall %s" % H(b"t3/a/b/"), "mkdirall", [b"t3", b"a", b"b"])
+    add("mkdirall %s" % H(b"t3/a//c//"), "mkdirall", [b"t3", b"a", b"c"])
+    add("mkdirall %s" % H(b"t3/a/b/"), "mkdirall", [b"t3", b"a", b"b"])
+    add("mkdirall %s" % H(b"existing/"), "mkdirall", [b"existing"])
+    add("mkdirall %s" % H(b"existing/new2//"), "mkdirall", [b"existing", b"new2"])
+    add("mkdirall %s" % H(b"s/"), "mkdirall", [b"s"])
+    add("mkdirall %s" % H(b"s//x/"), "mkdirall", [b"s", b"x"])
+    add("mkdirall %s" % H(sb + b"/"), "mkdirall", [])
+    add("mkdirall %s" % H(sb + b"//"), "mkdirall", [])
+    add("mkdirall %s" % H(sb + b"/t4//"), "mkdirall", [b"t4"])
+    for n in (511, 512, 513, 514, 4094, 4095):
+        add("mkdirall %s" % H(b"u%d/v" % n + b"/" * (n - len(b"u%d/v" % n))), "mkdirall", [b"u%d" % n, b"v"])
     add("copy %s %s s4" % (H(b"big"), H(b"bigcopy")), "copy", [b"bigcopy"], (b"big",), "absent")
     add("copy %s %s s100,1,1,300" % (H(b"big"), H(b"d")), "copy", [b"d"], (b"big",), "shorter")
     add("write %s %s s1,1,2" % (H(b"d"), H(b"hello world")), "write", [b"d"], b"hello world")
     add("rmall %s" % H(b"existing//"), "rmall", [b"existing"])
     add("readdir %s" % H(sb), "readdir", [])
+    add("readdirs %s" % H(sb), "readdirs", [])
+    add("readdirs %s" % H(b"existing"), "readdirs", [b"existing"])
+    add("readdirs %s" % H(b"d"), "readdirs", [b"d"])
+    # the exception class of create_dir_all_post (Props/C14 create_dir_all_path_max_trailing): exactly PATH_MAX bytes ending in
+    # a separator — Ok, the directory named lexically exists, although the kernel (and std::fs) refuse the path itself with
+    # ENAMETOOLONG; one byte more fails.  Last, because the twin is no reference afterwards.
+    # (`w4096/x///…`: the last mkdir finds what the upward loop just created, EEXIST, so the final stat runs: ENAMETOOLONG;
+    #  `y4096///…`: the first mkdir creates the directory and the code returns Ok without ever handing the kernel the whole path)
+    for n in (4096, 4097):
+        add("mkdirall %s" % H(b"w%d/x" % n + b"/" * (n - len(b"w%d/x" % n))), "mkdirall", [b"w%d" % n, b"x"])
+    for n in (4095, 4097, 4096):
+        add("mkdirall %s" % H(b"y%d" % n + b"/" * (n - len(b"y%d" % n))), "mkdirall", [b"y%d" % n])
     return L
 
 
@@ -630,7 +785,9 @@ def run(ctx):
     thorough = ctx.tier != "quick"
     ctx.rule = ("sessions = random trees (depth <= 5, names 1..255 bytes incl. non-UTF-8, files/dirs/symlinks/fifos, one directory with "
                 "%s entries) + op sequences write/read/copy/create_dir_all/remove_dir_all/readdir on a real sandbox, path shapes "
-                "relative/absolute, repeated and trailing slashes, existing prefixes, lengths 510..514 and 4093..4097, short-count scripts; "
+                "relative/absolute, repeated and trailing slashes, existing prefixes, lengths 510..514 and 4093..4097, short-count scripts "
+                "for write/copy_file_range, scripted getdents64 answers (readdirs: the kernel's records of a directory re-split over the "
+                "calls in 5 modes x 5 terminators incl. errno and early 0); "
                 "distinct_nontrivial = distinct (op, outcome class, absolute, repeated, trailing, length bucket, prior destination state) classes"
                 % ("3000" if thorough else "300"))
     ctx.assumptions += [
@@ -639,7 +796,9 @@ def run(ctx):
         "modelled domain: no symlink is traversed or followed by an operation's path, no `.`/`..` components, no fifo is opened, copy source != destination; "
         "outside it only the malformed stream applies (no panic; success implies std::fs success with the same tree)",
         "a directory stream is a snapshot: removing entries already returned does not disturb the entries still to come (checked by rmall on fan-out up to thousands)",
-        "the kernel's getdents64 order is environment: recorded from the real run and fed to the model",
+        "the kernel's getdents64 order is environment: recorded from the real run and fed to the model; how the records are split over "
+        "successive getdents64 answers is environment too: the kernel's own split is compared per call (readdir), arbitrary legal "
+        "splits, early end and errno answers are scripted through the sc-shim (readdirs)",
         "permissions, mount points, concurrent modification, EINTR are outside the model (read_to_end / write_all under EINTR: property C15)",
     ]
     ok = C.lean_prove(ctx, "TinyVerif.Props.C14", drivers=["drv_c14"])
@@ -665,6 +824,7 @@ def run(ctx):
         metas.append(("tree " + " ".join(dump_tokens(t)), "tree", (), None, None))
         if wide:
             metas.append(("readdir " + H(b"wide"), "readdir", (b"wide",), None, (False, False, False, 0)))
+            metas.append(("readdirs " + H(b"wide"), "readdirs", (b"wide",), None, (False, False, False, 0)))
         metas += g.ops(t, (10 if wide else 40) if not thorough else (16 if wide else 70), wide=bool(wide))
         if wide:
             metas.append(("rmall " + H(b"wide/"), "rmall", (b"wide",), None, (False, False, True, 0)))
@@ -687,6 +847,8 @@ def run(ctx):
     metas.append(("tree " + " ".join(dump_tokens(rd)), "tree", (), None, None))
     for nm in sorted(rd):
         metas.append(("readdir " + H(nm), "readdir", (nm,), None, (False, False, False, 0)))
+        for _ in range(2):
+            metas.append(("readdirs " + H(nm), "readdirs", (nm,), None, (False, False, False, 0)))
     metas.append(("rmall " + H(b"rd000"), "rmall", (b"rd000",), None, (False, False, False, 0)))
     metas.append(("end", "end", (), None, None))
     lines = [m[0] for m in metas]
@@ -702,6 +864,16 @@ def run(ctx):
             lines[i] = l + " " + o.split()[1][5:]
         elif l.startswith("readdir "):
             lines[i] = l + " t4:2e"       # open failed: the model must fail the same way before looking at the records
+        elif l.startswith("readdirs ") and o.startswith("ok recs="):
+            # the kernel's records are known now: choose how they are split over the getdents64 answers (environment input)
+            recs = o.split()[1][5:]
+            split, mode, term = gen_split(ctx.rng, parse_recs(recs))
+            lines[i] = "%s %s %s" % (l, recs, split)
+            metas[i] = metas[i][:5] + ((mode, term),)
+            ctx.hist("readdirs_split_mode", mode)
+            ctx.hist("readdirs_terminator", term)
+        elif l.startswith("readdirs "):
+            lines[i] = l + " t4:2e g"
     # a path the harness' sandbox guard refuses (e.g. `..` leading out of the sandbox) is not executed by the
     # implementation at all (`bad-op`, no state change): such cases are no evidence either way and are dropped
     keep = [i for i, o in enumerate(twin) if o != "bad-op"]
@@ -719,6 +891,8 @@ def run(ctx):
         cls = okclass(res) + ("" if okclass(res) != "err" else ":" + (res.split()[1] if len(res.split()) > 1 else "?"))
         ctx.hist("outcomes", m[1] + ":" + cls)
         ctx.count((m[1], cls) + tuple(m[4] or ()) + ((m[5],) if len(m) > 5 else ()))
+        if m[1] == "readdirs":
+            continue
         if m[1] == "copy" and len(m) > 5:
             ctx.hist("copy_prior_destination", m[5])
         if m[1] == "readdir" and res.startswith("ok"):
